@@ -9,7 +9,7 @@ RULE = ('complete enumeration of the finite metadata domain: r in -1..30 for cou
         '-1<=p<=c<=29 for get_num_children (observed list lengths for c<=p+6 on first/last/random parent cells, own closed '
         'form N(c)/N(p) beyond), get_num_cells(r) vs the number of distinct ids obtained by expanding the world cell '
         '(r<=6 quick, 8 thorough) and vs the sum of children counts over every coarser level (r<=5|6); a ladder of large fan-outs (face -> 9..11, cells -> +10 levels); the rule as used to size outputs: len(uncompact(list, t)) for '
-        'mixed-resolution lists with re-appearing resolutions, the hierarchy re-queried afterwards. '
+        'mixed-resolution lists with re-appearing resolutions, the hierarchy re-queried afterwards; every metadata call overtaken by another one at each of its LINE / INSTRUCTION events from the just-imported state, the whole table read again afterwards. '
         'distinct = distinct (kind, r or pair, cell); non-trivial = pairs with p<c and every enumerated level')
 ASSUMPTIONS = ['authalic radius 6371007.2 m defines the sphere area', 'own closed form N(0)=12, N(r)=60*4^(r-1)']
 R_AUTH = 6371007.2
@@ -29,6 +29,8 @@ def plan(tier, seed):
         specs.append({'part': 'ladder', 'p': p, 'c': c})
     specs.append({'part': 'sizing', 'n': 3000 if tier == 'quick' else 60000})
     specs.append({'part': 'big_sizing', 'n': 2 if tier == 'quick' else 8})
+    specs.append({'part': 'interleave', 'mode': 'line'})
+    specs.append({'part': 'interleave', 'mode': 'instruction'})
     return specs
 
 
@@ -36,9 +38,67 @@ def run_shard(spec, ctx):
     import a5
     from a5.core.cell_info import get_num_children
     from rv import gen, probe
-    probe.count_only([('a5.core.cell_info', 'get_num_cells'), ('a5.core.cell_info', 'get_num_children'),
-                      ('a5.core.cell_info', 'cell_area'), ('a5.core.serialization', 'cell_to_children')])
+    if spec['part'] != 'interleave':  # (the instruction-level injector needs the functions' own code objects, not counting wrappers)
+        probe.count_only([('a5.core.cell_info', 'get_num_cells'), ('a5.core.cell_info', 'get_num_children'),
+                          ('a5.core.cell_info', 'cell_area'), ('a5.core.serialization', 'cell_to_children')])
     from a5.core.cell_info import get_num_children  # rebound wrapper
+    if spec['part'] == 'interleave':
+        # the metadata as seen by two callers at once, from the state the package has right after import: a second metadata call
+        # run to completion inside every LINE / INSTRUCTION event of a first one (sys.monitoring injector), then the whole table
+        # read again. Nothing here may depend on who asked first or on a call being overtaken by another.
+        import os
+        import sys
+        from rv import sched, state
+        rew = state.Rewinder()
+        sphere = 4 * math.pi * R_AUTH * R_AUTH
+        face = a5.cell_to_children(0, 0)[7]
+        rew2 = state.Rewinder()  # (the line above is a hierarchy call, not a metadata call; both snapshots are restored)
+        ops = []
+        for r in (0, 1, 2, 3, 6, 11, 30):
+            ops.append(('get_num_cells(%d)' % r, (lambda r=r: a5.get_num_cells(r)), (lambda v, r=r: v == N(r))))
+        for r in (0, 2, 5, 30):
+            ops.append(('cell_area(%d)' % r, (lambda r=r: a5.cell_area(r)), (lambda v, r=r: abs(v * N(r) / sphere - 1) <= 4e-16)))
+        for p_, c_ in ((-1, 3), (0, 4), (1, 1), (2, 9), (5, 29)):
+            ops.append(('get_num_children(%d,%d)' % (p_, c_), (lambda p_=p_, c_=c_: get_num_children(p_, c_)),
+                        (lambda v, p_=p_, c_=c_: v == (1 if p_ == c_ else (N(c_) // N(p_) if p_ >= 0 else N(c_))))))
+        ops.append(('len(uncompact([face], 3))', (lambda: len(a5.uncompact([face], 3))), (lambda v: v == 80)))
+        ops.append(('len(cell_to_children(face, 2))', (lambda: len(a5.cell_to_children(face, 2))), (lambda v: v == 20)))
+        inj = sched.Injector(os.path.dirname(os.path.realpath(a5.__file__)))
+        mode = 'line' if spec['mode'] == 'line' else 'instr'
+        if mode == 'instr':
+            inj.set_instruction_targets([sys.modules['a5.core.cell_info']])
+        sites = set()
+        for an, A, okA in ops[:-2]:   # the two hierarchy calls only overtake; their own lines are C06 / C10 material
+            for bn, B, okB in ops:
+                rew.rewind()
+                rew2.rewind()
+                n_ev = inj.events_in(A, mode)
+                for k in range(1, n_ev + 1):
+                    rew.rewind()
+                    rew2.rewind()
+                    st, res = inj.run(A, B, k, mode)
+                    case = {'first': an, 'second': bn, 'k': k, 'mode': spec['mode'], 'at': list(inj.where) if inj.where else None}
+                    ctx.case(('interleave', spec['mode'], an, bn, k))
+                    ctx.count('metadata_interleavings_%s' % spec['mode'])
+                    if inj.where:
+                        sites.add(inj.where[:2])
+                    if st != 'ok' or not okA(res):
+                        ctx.fail('metadata_wrong_when_overtaken', case, got=repr(res)[:120])
+                    elif inj.where is not None and (inj.bexc is not None or not okB(inj.bres)):
+                        ctx.fail('metadata_wrong_when_overtaking', case, got=repr(inj.bexc or inj.bres)[:120])
+                    else:
+                        try:
+                            tab = [a5.get_num_cells(r) for r in range(0, 31)]
+                            ar = [a5.cell_area(r) for r in range(0, 31)]
+                            if tab != [N(r) for r in range(0, 31)] or any(not (ar[i + 1] < ar[i]) for i in range(30)) or \
+                                    get_num_children(0, 3) != 80 or len(a5.cell_to_children(face, 2)) != 20:
+                                ctx.fail('metadata_wrong_after_overtaken_call', case, table=tab[:6])
+                        except Exception as e:
+                            ctx.fail('metadata_raises_after_overtaken_call', case, exc=repr(e))
+        inj.close()
+        ctx.count('metadata_interleaving_sites', len(sites))
+        ctx.sample({'interleaving_sites': sorted('%s:%s' % s_ for s_ in sites)[:12]})
+        return
     if spec['part'] == 'meta':
         sphere = 4 * math.pi * R_AUTH * R_AUTH
         prev = None
@@ -159,7 +219,11 @@ def run_shard(spec, ctx):
 
 
 def finalize(m, tier):
-    return {'exhaustive': True,
+    inc = []
+    for md in ('line', 'instruction'):
+        if m['counters'].get('metadata_interleavings_%s' % md, 0) < 500:
+            inc.append('fewer than 500 %s-level metadata interleavings were produced' % md)
+    return {'exhaustive': True, 'inconclusive': inc,
             'explanation': 'the metadata domain (31 resolutions, 496 resolution pairs) is finite and enumerated completely; '
                            'enumeration-backed counts reach level %d' % (6 if tier == 'quick' else 8)}
 
